@@ -263,6 +263,17 @@ impl UnkHandler {
     }
 }
 
+#[cfg(vibrato_verif)]
+impl UnkHandler {
+    /// Verification hook: stored entries in stored order.
+    pub fn verif_entries(&self) -> Vec<(u16, u16, u16, i16, String)> {
+        self.entries
+            .iter()
+            .map(|e| (e.cate_id, e.left_id, e.right_id, e.word_cost, e.feature.clone()))
+            .collect()
+    }
+}
+
 #[cfg(test)]
 mod tests {
     use super::*;
